@@ -17,8 +17,8 @@ QUAD = sorted(set(min(q[0] + 9*q[1] + 81*q[2] + 729*q[3] for q in [r[i:] + r[:i]
 OBLIGATIONS = [
     ob('C11.same', 'h_c11_same', 'fp', [()], ['a point is recognised as the same point as itself (also with a zero coordinate)', 'points recognised as the same are within 1e4 ulp-scale relative distance', 'end'], 'all finite doubles (bit precise)', time_cap=250),
     ob('C11.node_bound', 'h_c11_surface', 'real', [(3, 0, c, 0) for c in TRI] + [(4, 0, c, 1) for c in QUAD[1:5]] + [(3, 0, c, 1) for c in TRI[:6]], ['minimum and maximum are the extrema of the nodal values', 'a point inside the hull is found in some triangle', 'at a listed point the listed value is used', 'the interpolated value lies between the smallest and largest nodal value', 'end'],
-       'every non-degenerate triangle of the 3x3 lattice with spacing 1000, plus 4 convex quadrilaterals and 6 triangles with spacing 1/1024 (quick; the quadrilaterals may end undecided within the quick cap, violations found before the cap are still reported); every triangle and convex quadrilateral at both spacings (thorough); nodal values and query point symbolic', cases_thorough=[(3, 0, c, s) for c in TRI for s in (0, 1)] + [(4, 0, c, s) for c in QUAD for s in (0, 1)], time_cap=120),
-    ob('C11.affine', 'h_c11_surface', 'real', [(3, 1, c, 0) for c in TRI] + [(3, 1, c, 1) for c in TRI[:6]], ['affine nodal data are reproduced exactly, whatever triangulation is chosen', 'end'], 'as C11.node_bound', cases_thorough=[(3, 1, c, s) for c in TRI for s in (0, 1)] + [(4, 1, c, s) for c in QUAD for s in (0, 1)], time_cap=120),
+       'every non-degenerate triangle of the 3x3 lattice with spacing 1000, plus 4 convex quadrilaterals and 6 triangles with spacing 1/1024 (quick; the quadrilaterals may end undecided within the quick cap, violations found before the cap are still reported); every triangle at both spacings, every convex quadrilateral at spacing 1000 and 8 of them at spacing 1/1024 (thorough); nodal values and query point symbolic', cases_thorough=[(3, 0, c, s) for c in TRI for s in (0, 1)] + [(4, 0, c, 0) for c in QUAD] + [(4, 0, c, 1) for c in QUAD[:8]], time_cap=120),
+    ob('C11.affine', 'h_c11_surface', 'real', [(3, 1, c, 0) for c in TRI] + [(3, 1, c, 1) for c in TRI[:6]], ['affine nodal data are reproduced exactly, whatever triangulation is chosen', 'end'], 'as C11.node_bound', cases_thorough=[(3, 1, c, s) for c in TRI for s in (0, 1)] + [(4, 1, c, 0) for c in QUAD] + [(4, 1, c, 1) for c in QUAD[:8]], time_cap=120),
 ]
 # the area features must consult the surface they were given: the frame obligations (shared with C02/C04) drive ContinentalPlate / OceanicPlate / MantleLayer ::properties with
 # symbolic constant/variable flags for both depth surfaces and assert that a variable min (max) depth surface is the one evaluated
